@@ -5,6 +5,10 @@ from ..common import rng
 def run(ctx):
     rnd = rng("C14")
     scs = nsplane.family_special(rnd, ctx.tier)
+    rs = nsplane.family_special_random(rnd, 50 if ctx.tier == "quick" else 2000)
+    for sc in rs[len(rs) // 2:]:
+        sc["nomodel"] = True
+    scs += rs
     ctx.rule = ("fifo, socket, char devices with several (major, minor) incl. a large minor, sole source / inside a tree, fresh / existing "
                 "destination (file, fifo, other device, link), --no-clobber, permission bits x umask {0, 022, 077}, block device alone and in a "
                 "tree; both drivers; non-trivial = every scenario here (each has a special node); distinct by (scenario, driver)")
@@ -14,6 +18,7 @@ def run(ctx):
     binary = build.xcp()
     traced = [s for s in scs if s["id"] in ("spec-tree-absent", "spec-tree-existing", "spec-recopy-samekind-0", "spec-recopy-sole-fifo-22", "spec-sole-p-fresh",
                                              "spec-sole-null-replace", "spec-sole-so-intodir")]
+    traced += rs[:10] if ctx.tier == "quick" else rs[:300]
     tj = [(sc, d) for sc in traced for d in nsprop.DRIVERS]
     def one(j):
         sc, d = j
